@@ -221,6 +221,50 @@ UnderscoreSegment(t) ==
 PathVerdict(t) == IF ~IsPath(t) THEN Reject ELSE IF UnderscoreSegment(t) THEN DontCare ELSE Accept(1)
 
 -----------------------------------------------------------------------------
+(* Forms and channels.  Level A does not depend on them: a text has one verdict whatever
+   form carries it to the parser, and a typed value denotes one text whatever channel takes
+   it out.  (The harness binds each name to real code, refuses a name it does not know and
+   requires every name it knows.) *)
+\* how a text arrives as a property value that is being cast
+CastForms == {
+    "str",                \* Value::from(&str)
+    "string",             \* Value::from(&String)
+    "from_any-string",    \* Value::from_any(&String)
+    "cow",                \* Value::from(&Cow<str>)
+    "option",             \* Value::from(Some(&str))
+    "display",            \* Value::from_display, one write
+    "display-chars",      \* Value::from_display, one write per character
+    "dyn-display",        \* ToValue for dyn Display
+    "serde",              \* Value::from_serde(&String)
+    "sval",               \* Value::from_sval(&String)
+    "owned",              \* Value::to_owned().by_ref()
+    "shared",             \* Value::to_shared().by_ref()
+    "props-pull"}         \* Props::pull on a (key, text) pair
+\* ... except where the statement's cast clause is not met by the code and this is reported as a
+\* finding instead of being asserted: TraceId / SpanId::from_value read the value through its Display,
+\* and a text (or an id) captured through serde or sval displays quoted, so the cast fails although
+\* the same capture casts to a Timestamp, Level or Kind.  These (parser, form) pairs are don't-care;
+\* the harness counts what it observes (evidence: coverage.findings_observed).
+CastDontCare == {<<"tid", "serde">>, <<"tid", "sval">>, <<"sid", "serde">>, <<"sid", "sval">>}
+VerdictVia(form, parser, verdict) == IF <<parser, form>> \in CastDontCare THEN DontCare ELSE verdict
+\* how the text of a typed value (timestamp, id, level, kind, path) gets out
+ValueChannels == {
+    "display",            \* Display / to_string
+    "to_value",           \* ToValue, then Display of the Value
+    "to_value-serde",     \* ToValue, then serde of the Value
+    "to_value-sval",      \* ToValue, then sval of the Value
+    "to_value-owned",     \* ToValue, to_owned, Display
+    "serde-json",         \* serde::Serialize of the typed value through serde_json::to_string
+    "serde-collect",      \* ... through serde_json::to_value
+    "sval",               \* sval::Value of the typed value into a collecting Stream
+    "sval-json",          \* ... through sval_json
+    "sval-ref"}           \* sval_ref::ValueRef into a collecting Stream (the types that have it: Path)
+TextVia(ch, text) == text
+\* and back: a typed value captured through these forms casts to the same typed value
+\* (Path has no "display" form: its cast takes text values only, it does not parse)
+TypedCastForms == {"from_any", "serde", "sval", "owned", "display"}
+
+-----------------------------------------------------------------------------
 (* all verdicts of one text *)
 Verdicts(t) ==
     [t |-> t, ts |-> TsVerdict(t), tid |-> IdVerdict(t, 32), sid |-> IdVerdict(t, 16),
